@@ -122,7 +122,7 @@ theorem lanczosStep_checked_of_VInv {k : Nat} {cols : List (List Nat)} (hM : Mat
     (∃ st', lanczosStep true (qsOptimize k cols) ay st = .finished st' ∧ st'.y = st.y ∧
       ∀ w ∈ st'.ws, w.isEmpty = false → ∃ j : Nat, st.ws[j]? = some w) ∨
     (∃ st' mk w, lanczosStep true (qsOptimize k cols) ay st = .continue st' mk ∧
-      LInv k cols Y0 st' (hist ++ [w]) (Ss ++ [mk])) :=
+      LInv k cols Y0 st' (hist ++ [w]) (Ss ++ [mk]) ∧ ∃ next next0, StepFacts k cols st hist st' mk w next next0) :=
   lanczosStep_checked_ok hM hay hayOK hInv (three_term_of_VInv hM hInv hV)
 
 end Ymq.Gf2Small
